@@ -18,6 +18,25 @@ CHECKS = {
         ref="5 C05"),
 }
 
+CHECKS["C10"] = dict(
+    technique="effect/exception analysis of all parser callbacks by abstract interpretation over the parser's image (static)",
+    text="Decides, for every input string, the part of the property that lives in this repository's code: every lexer "
+         "action, every (grammar action, production) pair, both error hooks and the exception constructors are evaluated "
+         "abstractly over the parser's own image; each must perform only total operations, raise only ODataException "
+         "subclasses, the hooks must raise on every path, no recursion/loop depth may depend on the input, token regexes "
+         "must be free of catastrophic-backtracking shapes and the start symbol's value is always a node.",
+    note="Trusted: SLY's tokenizer/driver loops terminate given raising hooks; CPython limits other than recursion depth. "
+         "Determinism is C20.",
+    ref="5 C10")
+CHECKS["C11"] = dict(
+    technique="table/oracle comparison + exhaustive abstract evaluation of _function_call over the (name, namespace, count) grid (static)",
+    text="Decides the property: ODATA_FUNCTIONS folded from source equals the OData 4.01 built-in table; _function_call is "
+         "evaluated on a grid that exhausts its control flow (every row, near-miss names, namespaces, counts 0..max+2) and "
+         "must accept/raise exactly as the table dictates, with exception fields (name, min, max, given) checked through "
+         "the evaluated constructors; call/list productions must keep identifier and arguments in source order.",
+    note="Oracle: OData 4.01 Part 2 5.1.1.5-5.1.1.13 function list. Trusted: SLY symbol naming (replicated).",
+    ref="5 C11")
+
 NOT_YET = {}
 
 PENDING_REASON = "check not built yet in this session (work in progress; see DESIGN.md section 8)"
